@@ -25,16 +25,17 @@ def setup():
         try:
             mod.generate(ctx)
         except Exception as e:  # noqa: BLE001
-            print(f"setup: generate {pid} failed: {e}")
-            rc = 1
+            print(f"setup: WARNING: generate {pid} failed: {e}")
     with common.CoqLock():
         common.ensure_makefile()
-        ok, log = common.coq_make([], timeout=3000)
+        ok, log = common.coq_make(["-k"], timeout=3000)
     if not ok:
+        # A file that does not compile is reported by the check of the property that needs it;
+        # the setup itself only pre-builds what it can.
         print(common.tail(log, 3000))
-        rc = 1
-    print(f"setup done in {time.time() - t0:.1f}s rc={rc}")
-    return rc
+        print("setup: WARNING: some Coq files did not build (see above)")
+    print(f"setup done in {time.time() - t0:.1f}s")
+    return 0
 
 
 def main():
